@@ -425,11 +425,24 @@ class Parser:
             return True
 
         if ttype == "left_cbracket":
+            condition = (
+                self.__curcommand.get_type() == "control"
+                and self.__curcommand.accept_children
+                and self.__curcommand.iscomplete()
+            )
+            if not condition:
+                return False
             self.__push_expected_bracket("right_cbracket", b"}")
             self.__cstate = None
             return True
 
         if ttype == "semicolon":
+            condition = (
+                self.__curcommand.get_type() == "test"
+                or self.__curcommand.accept_children
+            )
+            if condition:
+                return False
             self.__cstate = None
             if not self.__check_command_completion(testsemicolon=False):
                 return False
@@ -498,6 +511,11 @@ class Parser:
                 raise ParseError(
                     "end of script reached while %s expected"
                     % "|".join(self.__expected)
+                )
+            if self.__curcommand is not None:
+                raise ParseError(
+                    "end of script reached while the %s command is not finished"
+                    % self.__curcommand.name
                 )
 
         except (ParseError, CommandError, UnicodeDecodeError) as e:
